@@ -19,7 +19,7 @@ rundemo /tmp/seed-clean-$$.log; clean=$?
 rundemo /tmp/seed-mut-$$.log; mut=$?
 echo "confirm: demo-on-clean exit=$clean (want 0) suite-with-change exit=$suite (want 0) demo-with-change exit=$mut (want !=0)"
 if [ $clean -ne 0 ] || [ $suite -ne 0 ] || [ $mut -eq 0 ]; then echo "NOT CONFIRMED"; tail -5 /tmp/seed-clean-$$.log /tmp/seed-suite-$$.log /tmp/seed-mut-$$.log; rm -rf $S /tmp/seed-*-$$.log; exit 4; fi
-VERIF_REPO=$S VERIF_WORK_SUFFIX=.seed$$ /verif/bin/bipverif matrix -replay $P > /tmp/seed-matrix-$$.log 2>&1
+VERIF_REPO=$S VERIF_WORK_SUFFIX=.seed$$ /verif/bin/bipverif.seed matrix -replay $P > /tmp/seed-matrix-$$.log 2>&1
 grep '^MATRIX' /tmp/seed-matrix-$$.log | cut -c1-300
 d=/verif/seeded/$P-$I; mkdir -p $d; cp $patch $d/patch.diff; cp $demo $d/demo_test.go
 python3 - "$meta" "$d/meta.json" "$P" "$I" "$race" "$pkgdir" /tmp/seed-matrix-$$.log <<'PY'
